@@ -212,6 +212,15 @@ def judge(case, ctx, prefix='C14'):
                     f = {'voltage': sol.draw_voltage, 'current': sol.draw_current, 'power': sol.draw_power}[q]
                     lab = call(f, c['id'], rev)
                     judge_label(ctx, prefix, aname, q, c['ctor'], lab, (-val if rev else val), unit, opt, refd['tol'] * s * 8, wa, rev)
+                    if not raised(lab):
+                        # the number belongs to an element: the label is anchored on the element it was asked for (whichever of
+                        # that element's anchors the library chooses), not on some other symbol
+                        sym = next((e for e in d.elements if getattr(e, 'name', None) == c['id'] and hasattr(e, 'absanchors')), None)
+                        where = lab._userparams.get('at')
+                        if sym is not None and where is not None and not hasattr(where, 'absanchors'):
+                            ctx.count('label_attachments_checked')
+                            if not any(abs(where[0] - a[0]) <= 1e-6 and abs(where[1] - a[1]) <= 1e-6 for a in sym.absanchors.values()):
+                                ctx.violation(f'{prefix}/{aname}/{q}-label-not-on-its-element', f'{q} label of {c["id"]!r} is anchored at {tuple(where)!r}, which is none of the anchors of that symbol', {})
         for mn, name in net['names'].items():
             lab = call(sol.draw_potential, name) if any(getattr(e, 'name', None) == name for e in d.elements) else None
             if lab is None:
